@@ -46,8 +46,13 @@ theorem good_enum {env : Env} (hS : structsClosed env = true) {n : String} (hn :
     simp only [Bool.and_eq_true, List.isEmpty_iff, decide_eq_true_eq, List.all_eq_true] at h
     exact ⟨d, rfl, h.1.1, h.1.2, fun v hv => ⟨fun t ht => (h.2 v hv).1 t ht, (h.2 v hv).2⟩⟩
 
-theorem valTy_flat {env : Env} {t : Ty} (h : valTy env t = true) : flatTy t = true := by
-  cases t <;> simp [valTy, valTyS, scalarTy] at h <;> rfl
+theorem valTyS_flat {S E : List String} : ∀ {t : Ty}, valTyS S E t = true → flatTy t = true
+  | .ref e, h => by simp only [valTyS] at h; simp only [flatTy]; exact valTyS_flat h
+  | .unit, _ | .bool, _ | .string, _ | .int _ _, _ | .struct _, _ | .enum _, _ => rfl
+  | .float _, h | .tuple _, h | .dyn _, h | .app _ _, h | .array _ _, h | .vec _, h | .param _, h | .func _ _, h
+  | .tvar _, h => by simp [valTyS, scalarTy] at h
+
+theorem valTy_flat {env : Env} {t : Ty} (h : valTy env t = true) : flatTy t = true := valTyS_flat h
 
 /-- `variantOf` answers only for an existing variant of an admitted enum type -/
 theorem variantOf_spec {env : Env} {ty : Ty} {idx : Nat} {n vname : String} {tys : List Ty}
